@@ -19,3 +19,67 @@ Theorem C02_code_class_slices : forall b r c N W : nat,
   = Ret (map Z.of_nat (fst (locations_slices b r c N W)), map Z.of_nat (snd (locations_slices b r c N W))).
 Proof. exact g_locations_index_slices_eq. Qed.
 Print Assumptions C02_code_class_slices.
+
+(* ---- the Z / U updates and the soft threshold of admm/solver.py AS TRANSLATED (Gen/G_solver.v; equivalence with the
+   model: Proofs/GenEquivSV.v).  np.sum and compute_lambda_sum are uninterpreted in the translation: the statements hold
+   for the model's pairwise summation and for ANY function `cls` that returns the per-class weight lam_of. ---- *)
+From Ticc Require Import Gen.G_solver Model.Viterbi Model.Admm Proofs.AdmmP Proofs.GenEquivSV.
+
+Theorem C02_code_soft_threshold : forall (F : Type) (zero one : F) (add sub mul div : F -> F -> F) (ltb : F -> F -> bool)
+    (of_int : Z -> F),
+  of_int 0%Z = zero -> of_int (-1)%Z = sub zero one ->
+  forall s q rr : F,
+  g_soft_threshold_prox F add sub mul div ltb of_int s q rr = Ret (soft_threshold zero one add sub mul div ltb s q rr).
+Proof. exact g_soft_threshold_eq. Qed.
+Print Assumptions C02_code_soft_threshold.
+
+Theorem C02_code_u_update : forall (F : Type) (add sub : F -> F -> F) (u x z : list F),
+  length u = length x -> length x = length z ->
+  g_admm_update_u F add sub u x z = Ret (u_update add sub u x z).
+Proof. exact g_admm_update_u_eq. Qed.
+Print Assumptions C02_code_u_update.
+
+Theorem C02_code_z_update : forall (F : Type) (zero one : F) (add sub mul div : F -> F -> F) (ltb : F -> F -> bool)
+    (of_nat : nat -> F) (of_int : Z -> F) (L : Type),
+  of_int 0%Z = zero -> of_int (-1)%Z = sub zero one -> (forall n : nat, of_int (Z.of_nat n) = of_nat n) ->
+  forall (N W : nat) (rho : F) (lam : L) (lam_of : nat -> nat -> nat -> F)
+         (cls : L -> Z -> Z -> Z -> Z -> Z -> res F) (u x : list F),
+  1 <= N -> 1 <= W -> length x = N * W * (N * W + 1) / 2 -> length u = length x ->
+  (forall b r c : nat, b < W -> r < N -> c < N -> (b = 0 -> r <= c) ->
+     cls lam (Z.of_nat b) (Z.of_nat r) (Z.of_nat c) (Z.of_nat N) (Z.of_nat W) = Ret (lam_of b r c)) ->
+  g_admm_update_z F zero add sub mul div ltb of_int L (np_sum zero add) cls
+                  (mk_admm_args (Z.of_nat W) (Z.of_nat N) rho lam) u x
+  = Ret (z_update zero one add sub mul div ltb of_nat rho lam_of N W u x).
+Proof.
+  intros F zero one add sub mul div ltb of_nat of_int L H0 Hm1 Hn N W rho lam lam_of cls u x HN HW Hx Hu Hcls.
+  exact (g_admm_update_z_eq F zero one add sub mul div (fun a => a) ltb ltb of_nat of_int (fun _ => zero) L
+                            H0 Hm1 Hn N W rho lam lam_of cls u x HN HW Hx Hu Hcls).
+Qed.
+Print Assumptions C02_code_z_update.
+
+(* hence the Z the translated code returns is exactly block-Toeplitz with symmetric leading block, for every carrier *)
+Theorem C02_code_z_toeplitz : forall (F : Type) (zero one : F) (add sub mul div : F -> F -> F) (ltb : F -> F -> bool)
+    (of_nat : nat -> F) (of_int : Z -> F) (L : Type),
+  of_int 0%Z = zero -> of_int (-1)%Z = sub zero one -> (forall n : nat, of_int (Z.of_nat n) = of_nat n) ->
+  forall (N W : nat) (rho : F) (lam : L) (lam_of : nat -> nat -> nat -> F)
+         (cls : L -> Z -> Z -> Z -> Z -> Z -> res F) (u x : list F),
+  1 <= N -> 1 <= W -> length x = N * W * (N * W + 1) / 2 -> length u = length x ->
+  (forall b r c : nat, b < W -> r < N -> c < N -> (b = 0 -> r <= c) ->
+     cls lam (Z.of_nat b) (Z.of_nat r) (Z.of_nat c) (Z.of_nat N) (Z.of_nat W) = Ret (lam_of b r c)) ->
+  exists z : list F,
+    g_admm_update_z F zero add sub mul div ltb of_int L (np_sum zero add) cls
+                    (mk_admm_args (Z.of_nat W) (Z.of_nat N) rho lam) u x = Ret z /\
+    length z = length x /\
+    forall R C R' C' : nat, R <= C < N * W -> R' <= C' < N * W ->
+      C / N - R / N = C' / N - R' / N -> R mod N = R' mod N -> C mod N = C' mod N ->
+      nth (tri_index (N * W) R C) z zero = nth (tri_index (N * W) R' C') z zero.
+Proof.
+  intros F zero one add sub mul div ltb of_nat of_int L H0 Hm1 Hn N W rho lam lam_of cls u x HN HW Hx Hu Hcls.
+  exists (z_update zero one add sub mul div ltb of_nat rho lam_of N W u x).
+  split; [| split].
+  - exact (g_admm_update_z_eq F zero one add sub mul div (fun a => a) ltb ltb of_nat of_int (fun _ => zero) L
+                              H0 Hm1 Hn N W rho lam lam_of cls u x HN HW Hx Hu Hcls).
+  - apply z_update_length.
+  - intros R C R' C' HRC HRC' Hb Hr Hc. apply z_update_toeplitz; assumption.
+Qed.
+Print Assumptions C02_code_z_toeplitz.
